@@ -7,7 +7,7 @@
 From Coq Require Import List ZArith Bool NArith.
 From AV Require Import model.C16_runq model.C14_sync model.C14_sync_run model.C14_pool model.C14_sys
                        proofs.C16_runq proofs.C14_sync proofs.C14_pool proofs.C14_sys proofs.C14_thms.
-From AV Require model.C14_e2e_run proofs.C14_e2e model.C14_wp_run.
+From AV Require model.C14_e2e_run proofs.C14_e2e model.C14_wp_run proofs.C14_wp.
 Import ListNotations.
 Local Open Scope Z_scope.
 
@@ -203,12 +203,47 @@ Print Assumptions C14_restart_needs_A2.
 
 (* ------------------------------------------------------------------------------------------------ *)
 (* evaluators of the worker stage and of the end-to-end stage                                        *)
-Import C14_wp_run.
-Theorem C14_wp_start_ok_spec : forall prev it u ob,
-  start_ok prev (OStart it u) ob = true <->
-  (ob_ret ob = 0%N \/ find_inst (ob_ret ob - 1) (ob_inst prev) = Some (2%N, 0%N)).
-Proof. exact wp_start_ok_spec. Qed.
-Print Assumptions C14_wp_start_ok_spec.
+Import C14_wp_run C14_wp.
+(* the judge of the worker stage is what it says: per step (StartContainer only on an instance shown idle with
+   IdleBehavior run, never on one this pool has shown shut down, never while a process of the container is alive
+   on a discovered instance; a failed Create leaves Unallocated() unchanged; at most one live process per
+   container on discovered instances) and over a whole sequence *)
+Theorem C14_wp_step_ok_spec : forall shut disc prev o ob,
+  C14_wp_run.step_ok shut disc prev o ob = true <-> step_P shut disc prev o ob.
+Proof. exact wp_step_ok_spec. Qed.
+Print Assumptions C14_wp_step_ok_spec.
+
+Theorem C14_wp_spec_steps_spec : forall steps shut disc prev,
+  spec_steps shut disc prev steps = true <-> spec_P shut disc prev steps.
+Proof. exact wp_spec_steps_spec. Qed.
+Print Assumptions C14_wp_spec_steps_spec.
+
+(* which instances the judge carries as "shut down by this pool" *)
+Theorem C14_wp_next_shut_spec : forall shut o ob i,
+  In i (next_shut shut o ob) <->
+  o <> ORestart /\ ((exists ib la de, In (i, 4%N, ib, la, de) (ob_inst ob)) \/ (In i shut /\ In i (inst_ids ob))).
+Proof. exact wp_next_shut_spec. Qed.
+Print Assumptions C14_wp_next_shut_spec.
+
+(* StateShutdown is terminal in the pool model: no operation of the stage other than replacing the pool takes
+   an instance out of it (instance ids unique; the cloud hands out fresh ids) *)
+Theorem C14_shutdown_is_terminal : forall c o m i,
+  o <> ORestart -> fresh_create o (ms_pool m) -> NoDup (ids (ms_pool m)) ->
+  shut_id i (ms_pool m) -> only_shut i (ms_pool (snd (apply_op c o m))).
+Proof. exact shutdown_is_terminal. Qed.
+Print Assumptions C14_shutdown_is_terminal.
+
+(* a sequence on which implementation and model agree satisfies every clause of the judge that speaks about the
+   pool; the full specification implies those clauses *)
+Theorem C14_wp_model_satisfies_pool_clauses : forall cs,
+  fresh_ids empty_obs (wc_steps cs) -> model_b cs = true -> pool_clauses [] empty_obs (wc_steps cs).
+Proof. exact wp_model_satisfies_pool_clauses. Qed.
+Print Assumptions C14_wp_model_satisfies_pool_clauses.
+
+Theorem C14_wp_spec_implies_pool_clauses : forall steps shut disc prev,
+  spec_P shut disc prev steps -> pool_clauses shut prev steps.
+Proof. exact wp_spec_implies_pool_clauses. Qed.
+Print Assumptions C14_wp_spec_implies_pool_clauses.
 
 Import C14_e2e_run C14_e2e.
 (* the judge of the end-to-end event log: at every arriving start command, in the state reached by the
